@@ -153,6 +153,7 @@ fn main() {
                             "bufseq" => scen_buf::replay(&xs[1..]),
                             "exec" => scen_exec::replay_exec(&xs[1..]),
                             "step" => scen_exec::replay_step(&xs[1..]),
+                            "growth" => scen_prog::replay_growth(&xs[1..]),
                             _ => None,
                         }
                     }
